@@ -13,3 +13,12 @@ chk("C03", "static analysis: exact byte-class computation + MIR decision tables 
     "Symbolic in the string, so all strings and indices are covered.",
     "Trusted: rustc MIR; models of len/as_bytes/from_raw_parts. Not decided: the two boundary *search* loops "
     "(__find_next/prev_char_boundary) beyond what C07 checks.")
+chk("C13", "static analysis: slice-provenance (cut kind) vs offset-update typestate over MIR, per Parser method",
+    "Inductive invariant 'remainder == original[start..end]' is checked as one proof obligation per Parser-producing function "
+    "(15 combinators, 13 parse_*, new, with_start_offset, skip, skip_back): the D1 provenance of the new remainder w.r.t. the "
+    "old one (Suffix/Prefix/Middle, computed from the callees' own bodies) must match the start_offset update actually "
+    "performed and the direction set; errors must be built from the pre-operation parser; ParseError::new/other_error/offset "
+    "and the accessors are decided as tables. Symbolic in the string and in the operation history (induction), which tests "
+    "cannot enumerate.",
+    "Trusted: rustc MIR; loops are abstracted (loop-modified locals become fresh symbols, others keep their pre-loop value); "
+    "`skip` relies on its count being <= len (loop bound not proved). Char-boundary clause rests on C01/C03.")
